@@ -31,7 +31,7 @@ INVARIANT TiledIsPeriodic
 INVARIANT InterleaveCounts
 INVARIANT Emit
 """
-    return core.run_tlc(mod, cfg, workers=8, extra_files=[(mod + ".tla", text)], timeout=3000)
+    return core.run_tlc(mod, cfg, workers=8, extra_files=[(mod + ".tla", text)], timeout=3000, coverage=True)
 
 
 def hist_for(n, c):
